@@ -359,6 +359,12 @@ pub fn run(w: Arc<World>, seed: u64, schedules: Vec<Value>, trace: &mut Trace, s
         let evs: Vec<Value> = rt.block_on(async {
             let mut evs = vec![];
             for a in &acts {
+                // a schedule step that names a dial the real nodes never started (the model's choice "start_sync dials the
+                // remembered peer" is not a demand of C11): the rest of the schedule cannot be replayed, the prefix stands
+                let d = a["d"].as_u64().unwrap_or(0) as usize;
+                if d > pair.dials.len() {
+                    break;
+                }
                 let fut = pair.step(a);
                 match futures_lite::future::FutureExt::catch_unwind(std::panic::AssertUnwindSafe(fut)).await {
                     Ok(ev) => evs.push(ev),
